@@ -3,7 +3,9 @@ package main
 import (
 	"context"
 	"fmt"
+	"github.com/vipnode/vipnode/v2/jsonrpc2"
 	"math/rand"
+	"net/http/httptest"
 	"sort"
 	"strings"
 	"time"
@@ -345,11 +347,11 @@ func runC08(ctx *Ctx) {
 // ---------- C09 ----------
 
 type c09Ev struct {
-	Ev     string `json:"ev"`
-	Host   string `json:"host,omitempty"`
-	Conn   int    `json:"conn"`
-	Remotes int   `json:"num_remotes"`
-	Called []int  `json:"conns_called,omitempty"`
+	Ev      string `json:"ev"`
+	Host    string `json:"host,omitempty"`
+	Conn    int    `json:"conn"`
+	Remotes int    `json:"num_remotes"`
+	Called  []int  `json:"conns_called,omitempty"`
 }
 
 func runC09(ctx *Ctx) {
@@ -384,13 +386,45 @@ func runC09(ctx *Ctx) {
 		if _, err := w.connect("c1", false, "geth", "", ""); err != nil {
 			fatal("%v", err)
 		}
+		var hts *httptest.Server
+		httpSrv := func() *httptest.Server {
+			if hts == nil {
+				hs := &jsonrpc2.HTTPServer{}
+				if err := hs.Register("vipnode_", w.pool, "connect", "disconnect", "ping", "update", "peer", "client", "host"); err != nil {
+					fatal("register: %v", err)
+				}
+				hts = httptest.NewServer(hs)
+			}
+			return hts
+		}
+		defer func() {
+			if hts != nil {
+				hts.Close()
+			}
+		}()
 		var evs []c09Ev
 		var items []string
 		var mon []string
 		steps := 6 + rng.Intn(14)
 		for k := 0; k < steps; k++ {
-			r := rng.Intn(10)
+			r := rng.Intn(11)
 			switch {
+			case r == 10: // a full node sends its connect over plain HTTP: there is no connection to instruct it over
+				h := hosts[rng.Intn(len(hosts))]
+				id := nodeIDOf(h)
+				req := pool.ConnectRequest{VipnodeVersion: "verif", NodeInfo: userAgentFor("geth", true), NodeURI: "enode://" + id + "@10.3.3.3:30303"}
+				nonce := w.nextNonce()
+				sig := w.sign(keyFor(h), "vipnode_connect", id, nonce, req)
+				before := w.pool.NumRemotes()
+				var resp pool.ConnectResponse
+				cctx, cancel := context.WithTimeout(context.Background(), 10*time.Second)
+				err := (&jsonrpc2.HTTPService{Endpoint: httpSrv().URL}).Call(cctx, &resp, "vipnode_connect", sig, id, nonce, req)
+				cancel()
+				nr := w.pool.NumRemotes()
+				evs = append(evs, c09Ev{Ev: "http-connect", Host: h, Remotes: nr})
+				if err == nil || nr != before {
+					mon = append(mon, fmt.Sprintf("c09-http-host-registered: host %s sent vipnode_connect over plain HTTP (a request with no connection behind it): result %v, registry entries %d -> %d; nothing can be instructable over a request that has ended", h, err, before, nr))
+				}
 			case r < 5: // (re)connect a host on a new or an existing open connection
 				h := hosts[rng.Intn(len(hosts))]
 				ci := -1
